@@ -365,6 +365,10 @@ impl LiveActor {
         if !self.state.start_connect(&namespace, peer, reason) {
             return;
         }
+        #[cfg(feature = "verif-hooks")]
+        if verif::dial_approved(self.endpoint.id(), namespace, peer, reason) {
+            return;
+        }
         let endpoint = self.endpoint.clone();
         let sync = self.sync.clone();
         let metrics = self.metrics.clone();
@@ -825,6 +829,122 @@ impl LiveActor {
     ) -> AcceptOutcome {
         self.state
             .accept_request(&self.endpoint.id(), &namespace, peer)
+    }
+}
+
+/// Verification hooks: drive the coordination handlers of a [`LiveActor`] that is never run.
+#[cfg(feature = "verif-hooks")]
+pub mod verif {
+    use std::sync::Mutex;
+
+    use iroh::{EndpointAddr, PublicKey};
+
+    use super::{LiveActor, SyncReason};
+    use crate::{
+        engine::state::VerifPeerSnapshot,
+        net::{AcceptError, ConnectError, SyncFinished},
+        NamespaceId,
+    };
+
+    /// An approved dial: (dialing node, namespace, dialed peer, reason).
+    pub type Dial = (PublicKey, NamespaceId, PublicKey, SyncReason);
+
+    static DIAL_LOG: Mutex<Option<Vec<Dial>>> = Mutex::new(None);
+
+    /// Enable (with an empty log) or disable the dial log. While enabled, an approved dial is
+    /// recorded and the network task is *not* spawned.
+    pub fn set_dial_log(enabled: bool) {
+        *DIAL_LOG.lock().unwrap_or_else(|e| e.into_inner()) = enabled.then(Vec::new);
+    }
+
+    /// Take the dials recorded so far.
+    pub fn take_dials() -> Vec<Dial> {
+        DIAL_LOG
+            .lock()
+            .unwrap_or_else(|e| e.into_inner())
+            .as_mut()
+            .map(std::mem::take)
+            .unwrap_or_default()
+    }
+
+    pub(super) fn dial_approved(
+        me: PublicKey,
+        namespace: NamespaceId,
+        peer: PublicKey,
+        reason: SyncReason,
+    ) -> bool {
+        match DIAL_LOG.lock().unwrap_or_else(|e| e.into_inner()).as_mut() {
+            None => false,
+            Some(log) => {
+                log.push((me, namespace, peer, reason));
+                true
+            }
+        }
+    }
+
+    impl LiveActor {
+        /// `sync_with_peer`
+        pub fn verif_sync_with_peer(
+            &mut self,
+            namespace: NamespaceId,
+            peer: PublicKey,
+            reason: SyncReason,
+        ) {
+            self.sync_with_peer(namespace, peer, reason)
+        }
+
+        /// `on_sync_via_connect_finished`
+        pub async fn verif_on_sync_via_connect_finished(
+            &mut self,
+            namespace: NamespaceId,
+            peer: PublicKey,
+            reason: SyncReason,
+            result: Result<SyncFinished, ConnectError>,
+        ) {
+            self.on_sync_via_connect_finished(namespace, peer, reason, result)
+                .await
+        }
+
+        /// `on_sync_via_accept_finished`
+        pub async fn verif_on_sync_via_accept_finished(
+            &mut self,
+            res: Result<SyncFinished, AcceptError>,
+        ) {
+            self.on_sync_via_accept_finished(res).await
+        }
+
+        /// `start_sync`
+        pub async fn verif_start_sync(
+            &mut self,
+            namespace: NamespaceId,
+            peers: Vec<EndpointAddr>,
+        ) -> anyhow::Result<()> {
+            self.start_sync(namespace, peers).await
+        }
+
+        /// `leave`
+        pub async fn verif_leave(
+            &mut self,
+            namespace: NamespaceId,
+            kill_subscribers: bool,
+        ) -> anyhow::Result<()> {
+            self.leave(namespace, kill_subscribers).await
+        }
+
+        /// Snapshot of the coordination state for a document and peer.
+        pub fn verif_snapshot(&self, namespace: &NamespaceId, peer: &PublicKey) -> VerifPeerSnapshot {
+            self.state.verif_snapshot(namespace, peer)
+        }
+
+        /// The node id of this actor.
+        pub fn verif_me(&self) -> PublicKey {
+            self.endpoint.id()
+        }
+
+        /// Shut down the store actor and gossip of a never-run live actor.
+        pub async fn verif_shutdown(&mut self) -> anyhow::Result<()> {
+            self.shutdown().await
+        }
     }
 }
 
